@@ -1,4 +1,5 @@
 //! Shared generators for the pure engines (serialisable mirror of `Value`, boundary pools,
 //! random strategies).
 mod gen;
+pub mod recon_text;
 pub use gen::*;
